@@ -406,9 +406,11 @@ def call_args(cal: Callable_, shape: dict):
     return pos, kws
 
 
-def call_text(cal: Callable_, shape: dict) -> str:
+def call_text(cal: Callable_, shape: dict, spaced: bool = False) -> str:
+    """spaced: blanks around the `=` of every keyword argument and after the opening parenthesis (optional spacing)."""
     pos, kws = call_args(cal, shape)
-    return ", ".join([x.src for x in pos] + [f"{k}={v.src}" for k, v in kws])
+    eq = " = " if spaced else "="
+    return ", ".join([x.src for x in pos] + [f"{k}{eq}{v.src}" for k, v in kws])
 
 
 def primed(cal: Callable_) -> bool:
@@ -420,7 +422,7 @@ def script(cal: Callable_, shape: dict, ctxv: int = 0) -> str:
     """ctxv = 0: the call alone at file scope.  ctxv = 1 (device-method statements only): inside the main loop, directly
     after a PRIMING call of the same method that passes every parameter by keyword - what one statement binds must not
     depend on the statement before it (an omitted argument takes its default, not the previous call's value)."""
-    args = call_text(cal, shape)
+    args = call_text(cal, shape, spaced=(ctxv == 2))
     lines = [cal.imp]
     if ctxv == 1 and primed(cal):
         m = cal.cid.split(".")[1]
